@@ -112,19 +112,22 @@ inductive Err where
   | insecure   -- unpacking: archive entry outside of the unpack dir
   | scope      -- api bridge: "violates scope"
   | statErr    -- fstree: "could not stat query root"
+  | unclean    -- fstree: "key is not a clean path" (record keys only)
   deriving Repr, DecidableEq
 
 def Err.str : Err → String
   | .tooShort => "tooshort" | .integrity => "integrity" | .outside => "outside"
-  | .relErr => "rel" | .insecure => "insecure" | .scope => "scope" | .statErr => "staterr"
+  | .relErr => "rel" | .insecure => "insecure" | .scope => "scope" | .statErr => "staterr" | .unclean => "unclean"
 
 /-- `fstree.buildFilePath` (fstree.go).  Record keys (`checkKeyLength`) must name something strictly
-    below the base path; a query prefix may also resolve to the base path itself. -/
+    below the base path and must be clean relative paths (the joined path is literally base + "/" + key);
+    a query prefix may also resolve to the base path itself and need not be clean. -/
 def buildFilePath (base key : Path) (checkKeyLength : Bool) : Except Err Path :=
   if checkKeyLength ∧ key.length < 1 then .error .tooShort
   else
     let dst := join2 base key
     if !hasPrefix dst (base ++ [47]) && (checkKeyLength || dst != base) then .error .integrity
+    else if checkKeyLength && dst != base ++ 47 :: key then .error .unclean
     else .ok dst
 
 /-- What `os.Stat` says about the query's walk prefix (`other`: an error that is not "does not exist",
